@@ -130,6 +130,59 @@ pub fn run(args: &Args, out: &mut Out) {
             }
         }
     }
+    // the bound on the initial sequence is what keeps two consecutive rounds apart (C07): every cell x values around 64511
+    let mut bnd = 0usize;
+    for (proto, strategy, v6) in [
+        (Protocol::Icmp, MultipathStrategy::Classic, false), (Protocol::Icmp, MultipathStrategy::Classic, true),
+        (Protocol::Udp, MultipathStrategy::Classic, false), (Protocol::Udp, MultipathStrategy::Classic, true),
+        (Protocol::Udp, MultipathStrategy::Paris, false), (Protocol::Udp, MultipathStrategy::Paris, true),
+        (Protocol::Udp, MultipathStrategy::Dublin, false), (Protocol::Udp, MultipathStrategy::Dublin, true),
+        (Protocol::Tcp, MultipathStrategy::Classic, false), (Protocol::Tcp, MultipathStrategy::Classic, true),
+    ] {
+        for initial_sequence in [64510u16, 64511, 64512, 65022, 65023, 65281, 65282, 65535] {
+            let cfg = Cfg {
+                proto, strategy, portdir: if proto == Protocol::Icmp { PortDirection::None } else { PortDirection::new_fixed_src(5000) },
+                target: if v6 { "2001:db8::9".parse().unwrap() } else { "10.0.0.9".parse().unwrap() }, trace_id: 77, max_rounds: 2, first_ttl: 1, max_ttl: 3,
+                grace_ns: 0, max_inflight: 24, initial_sequence, min_ns: 0, max_ns: 5500, max_samples: 256, max_flows: 64,
+            };
+            let truth = std::rc::Rc::new(std::cell::RefCell::new(vec![]));
+            let env = FaultEnv { cfg: cfg.clone(), sends: vec![0; 8], recvs: vec![0; 8], si: 0, ri: 0, last: None, last_resp: None, truth: truth.clone(), sent_ok: false };
+            let t0 = vclock::BASE_NS;
+            vclock::set(t0);
+            let r = exec(&cfg, Box::new(env), t0, 0);
+            let tr = truth.borrow().clone();
+            let mut verdict = crate::m_run::full_oracle(&cfg, &r, &tr, false);
+            if initial_sequence > 64511 && !r.result.starts_with("err:badconfig") {
+                let m = format!("C07:builder_accepts_initial_sequence_{initial_sequence}_above_64511_consecutive_rounds_are_no_longer_kept_apart");
+                verdict = if verdict == "ok" { format!("FAIL:{m}") } else { format!("{verdict};{m}") };
+            }
+            out.case(&crate::m_run::case_line(&cfg, &r, &tr), &r.render(), &verdict);
+            bnd += 1;
+        }
+    }
+    out.stat("initial_sequence_boundary_configurations", bnd);
+    // a failure BEFORE the loop starts (the source address cannot be bound: no network needed) must end the run with an error
+    // and be visible in the snapshot
+    vclock::disable();
+    for v6 in [false, true] {
+        let (target, source): (std::net::IpAddr, std::net::IpAddr) = if v6 { ("2001:db8::9".parse().unwrap(), "2001:db8::77".parse().unwrap()) } else { ("192.0.2.9".parse().unwrap(), "192.0.2.1".parse().unwrap()) };
+        let res = std::panic::catch_unwind(|| {
+            let tracer = trippy_core::Builder::new(target).source_addr(Some(source)).max_rounds(Some(1)).build().unwrap();
+            let r = tracer.run();
+            (r.is_err(), r.err().map(|e| e.to_string()), tracer.snapshot().error().map(ToString::to_string))
+        });
+        let input = format!("startup {}", if v6 { 6 } else { 4 });
+        match res {
+            Err(_) => out.case(&input, "fault:panic", "FAIL:C09:panic_at_startup"),
+            Ok((is_err, e, snap)) => {
+                let mut fails = vec![];
+                if !is_err { fails.push("C09:run_with_an_unusable_source_address_returned_ok".to_string()); }
+                if is_err && snap != e { fails.push("C09:startup_error_not_visible_in_the_snapshot".to_string()); }
+                out.case(&input, &format!("err={} visible={}", u8::from(is_err), u8::from(snap.is_some())), &if fails.is_empty() { "ok".to_string() } else { format!("FAIL:{}", fails.join(";")) });
+            }
+        }
+    }
+    vclock::enable(vclock::BASE_NS);
     out.stat("sequence_budget_edge_scripts", edge);
     out.stat("fault_scripts", n);
     out.stat("steps_per_script", steps);
